@@ -114,9 +114,25 @@ def build(inp):
     coq_cmds = []
     why = None
     baseline = True
+    # the generator numbered the views by running the commands on the COMPLETE value.  On the partial tree a
+    # read can fail where the generator's succeeded, so later view numbers would address other views than the
+    # command was written for (and its argument would not fit them).  `shg` replays the generator's numbering;
+    # once the two numberings differ, only commands on the top-level view (number 0, always the same view)
+    # are kept, the others are dropped for implementation and model alike.
+    shg = Shadow(t, v)
+    kept = 0
     if nd.merkle_root() != root0:
         why = "summarising changed the root"
     for k, c in enumerate(cmds):
+        diverged = len(shg.views) != len(shp.views)
+        try:
+            if c[1] < len(shg.views):
+                shg.run(c)
+        except Exception:
+            pass
+        if diverged and c[1] != 0:
+            continue
+        kept += 1
         if c[1] >= len(shp.views):
             # the view this command addresses was never obtained on the partial tree (its get failed)
             coq_cmds.append(cmd_coq(shp.types, c, None))
@@ -152,8 +168,8 @@ def build(inp):
                 elif not isinstance(pe, E) and pe != fe:
                     why = "after command %d a held view's encoding differs from the complete tree's" % (k + 1)
     coq = "(%s, %s, %s, %s)" % (ty_coq(t), val_coq(t, v), clist(cN(g) for g in gs), clist(coq_cmds))
-    names = ["P:summarised"] + ["P:step%d" % (i + 1) for i in range(len(cmds))]
-    c = Case(inp, coq, obs, names, nontrivial=(any(flags) and len(cmds) >= 2), kind=t[0])
+    names = ["P:summarised"] + ["P:step%d" % (i + 1) for i in range(kept)]
+    c = Case(inp, coq, obs, names, nontrivial=(any(flags) and kept >= 2), kind=t[0])
     c.why = why
     return c
 
